@@ -133,6 +133,10 @@ PulsePresent ==
 DurationsInRange ==
   Active => /\ (RealC => (0 < C /\ C <= 48 * HU))
             /\ (RealH => (0 < Hh /\ Hh <= 48 * HU))
+\* the pulse in the sequence lasts exactly the month's computed peak duration of ITS direction (first-month clamping excepted)
+PulseLastsItsDuration ==
+  (Active /\ ~Clamped(Cur, i)) => /\ (RealC => C = Cur.dc)
+                                  /\ (RealH => Hh = Cur.dh)
 \* centre of each pulse within [noon, noon + 1 h] of its peak day (the code's month start is 1-based), or the pulse
 \* abuts that noon when both peaks share a day; first-month clamping at time zero excepted
 Noon(day) == day * 24 * HU + 12 * HU
